@@ -36,6 +36,22 @@ def cases(draw, tier="quick"):
             "seed": draw(st.integers(0, 2 ** 31))}
 
 
+def fixed_cases(tier):
+    """The same three / four-value map sitting on every integer type's limit, under every repr that can hold it."""
+    from . import C01
+    out = []
+    for L in C01.NARROW_LIMITS:
+        for shape in ("ends_at", "starts_at"):
+            vals = [L - 2, L - 1, L] if shape == "ends_at" else [L, L + 1, L + 3]
+            adm = [r for r in M.REPRS if M.repr_domain(r)[0] <= vals[0] and vals[-1] <= M.repr_domain(r)[1]]
+            if len(adm) < 2:
+                continue
+            spec = {"repr": adm[0], "vis": "pub", "ident": "E", "enum_attrs": [],
+                    "variants": [{"ident": "V%d" % i, "disc": str(v)} for i, v in enumerate(vals)]}
+            out.append({"spec": spec, "cfg": S.simple_config(E.ALL_FEATURES), "reprs": adm[1:], "perm_seeds": [3], "seed": 0})
+    return out
+
+
 def explicit(spec, repr_=None):
     m = M.RefEnum(spec)
     s = copy.deepcopy(spec)
@@ -79,30 +95,36 @@ def run_case(case):
     for mm in models:
         if sorted(zip(mm.values, mm.names)) != sorted(zip(m0.values, m0.names)):
             raise J.build.InfraError("C18 transformation changed the value->name map")
-    ranges = [M.repr_range(s["repr"]) for s in specs]
-    lo = max(r[0] for r in ranges)
-    hi = min(r[1] for r in ranges)
+    # every module gets the script for its own repr range (try_from arguments beyond a narrower twin's range are
+    # still compared among the wider twins); calls are matched across modules by a canonical key in which variant
+    # arguments are written as discriminant values
     sc = E.Script()
-    C.full_script(sc, 0, m0, cfg, J.case_rng(case), n_hist=4, n_pairs=10, n_strings=16, limit=24, sweep=False,
-                  value_filter=lambda x: lo <= x <= hi)
-    pos0 = {ident: i for i, ident in enumerate(m0.idents)}
-    for k in range(1, len(specs)):
-        imap = {pos0[ident]: j for j, ident in enumerate(models[k].idents)}
-        C.translate_script(sc, 0, k, imap)
-    modules = [(s, cfg, {"kind": "plain"}) for s in specs]
+    seed = J.fp(case)
+    for k, mm in enumerate(models):
+        lo_k, hi_k = M.repr_range(specs[k]["repr"])
+        C.full_script(sc, k, mm, cfg, random.Random(seed), n_hist=4, n_pairs=10, n_strings=16, limit=24, sweep=False,
+                      value_filter=lambda x, lo_k=lo_k, hi_k=hi_k: lo_k <= x <= hi_k)
+    modules = [(s_, cfg, {"kind": "plain"}) for s_ in specs]
     obs = J.run_script(out, modules, sc)
-    # pure metamorphic comparison (line i of module k corresponds to line i of module 0)
+    compared = 0
     if obs is not None:
-        n0 = sum(1 for l in sc.lines if l.startswith("0 "))
-        for k in range(1, len(specs)):
-            for i in range(n0):
-                a, b = obs[i] if i < len(obs) else None, obs[k * n0 + i] if k * n0 + i < len(obs) else None
-                if a is not None and b is not None and a != b:
-                    out.violate("a permutation of the declaration order / another repr changes an observable result",
-                                call=sc.lines[i], original=a[:300], transformed=b[:300],
-                                transformed_decl={"repr": specs[k]["repr"], "order": models[k].idents[:12]})
-                    break
-        out.count("calls_compared_across_declarations", n0 * (len(specs) - 1))
+        groups = {}
+        for line, o in zip(sc.lines, obs):
+            parts = line.split(" ")
+            k, cmd, args = int(parts[0]), parts[1], parts[2:]
+            for j in range(C.INDEX_ARGS.get(cmd, 0)):
+                args[j] = "v%d" % models[k].values[int(args[j])]
+            groups.setdefault(" ".join([cmd] + args), []).append((k, o))
+        for key, lst in groups.items():
+            if len(lst) < 2:
+                continue
+            compared += 1
+            if len({o for _k, o in lst}) > 1:
+                k_bad = next(k for k, o in lst if o != lst[0][1])
+                out.violate("a permutation of the declaration order / another repr changes an observable result",
+                            call=key, results=[{"repr": specs[k]["repr"], "order_head": models[k].idents[:6], "observed": o[:200]} for k, o in lst][:6],
+                            transformed_decl={"repr": specs[k_bad]["repr"], "order": models[k_bad].idents[:12]})
+        out.count("calls_compared_across_declarations", compared)
     C.std_labels(out, m0)
     r0 = spec0["repr"]
     diff_repr = any(M.repr_signed(r) != M.repr_signed(r0) or M.repr_bits(r) != M.repr_bits(r0) for r in case["reprs"])
